@@ -29,6 +29,8 @@ pub enum LEv {
     IdlePeer,
     IdleQuery,
     Wake,
+    /// peer i answers the request an *earlier*, already ended lookup sent to it
+    Stale(u8),
 }
 
 #[derive(Clone, Debug)]
@@ -38,6 +40,9 @@ pub struct LCfg {
     pub parallelism: usize,
     /// None: plain lookup (k = 16); Some(k): predicate lookup for k nodes
     pub predicate_k: Option<usize>,
+    /// An earlier lookup that ended with requests still outstanding at the handler:
+    /// 0 none; 1 cut off by the query timeout; 2 finished after all its peers went unresponsive.
+    pub prelude: u8,
 }
 
 fn peer_record(i: u8) -> Enr {
@@ -70,6 +75,34 @@ async fn run_async(cfg: &LCfg, hist: &[LEv]) -> Outcome<LEv> {
         node.discv5.add_enr(peers[*s as usize].clone()).expect("seed");
     }
     let k = cfg.predicate_k.unwrap_or(16);
+    let mut stale: BTreeMap<usize, v::RequestId> = BTreeMap::new();
+    let mut prelude_violation: Option<Violation> = None;
+    if cfg.prelude != 0 {
+        let first = tokio::spawn(node.discv5.find_node(target));
+        for _ in 0..3 {
+            node.inject(HandlerOut::ExpiredSessions(vec![])).await;
+        }
+        rt::settle().await;
+        for hin in node.drain_handler_in() {
+            if let HandlerIn::Request(contact, req) = hin {
+                if let Some(p) = ids.iter().position(|i| *i == contact.node_id()) {
+                    stale.insert(p, req.id.clone());
+                }
+            }
+        }
+        clock::advance(if cfg.prelude == 1 { QUERY_TIMEOUT } else { PEER_TIMEOUT });
+        for _ in 0..3 {
+            node.inject(HandlerOut::ExpiredSessions(vec![])).await;
+        }
+        rt::settle().await;
+        if !first.is_finished() {
+            first.abort();
+            prelude_violation = Some(Violation { clause: "every lookup terminates and hands its result to the caller".into(), key: "c09:prelude-no-termination".into(), detail: format!("earlier lookup (prelude {}) did not resolve", cfg.prelude), replay: json!(null) });
+        } else {
+            let _ = first.await;
+        }
+        let _ = node.drain_handler_in();
+    }
     let mut handle = Some(match cfg.predicate_k {
         None => tokio::spawn(node.discv5.find_node(target)),
         Some(k) => tokio::spawn(node.discv5.find_node_predicate(target, Box::new(predicate), k)),
@@ -84,7 +117,7 @@ async fn run_async(cfg: &LCfg, hist: &[LEv]) -> Outcome<LEv> {
     let mut successes = 0usize;
     let mut result: Option<Vec<Enr>> = None;
     let mut resolved_at: Option<usize> = None;
-    let mut violation: Option<Violation> = None;
+    let mut violation: Option<Violation> = prelude_violation;
     let mut counters: BTreeMap<&'static str, u64> = BTreeMap::new();
     let mut chain = vec![];
     let mut prev = None;
@@ -167,6 +200,13 @@ async fn run_async(cfg: &LCfg, hist: &[LEv]) -> Outcome<LEv> {
             LEv::Wake => {
                 node.inject(HandlerOut::ExpiredSessions(vec![])).await;
             }
+            LEv::Stale(p) => {
+                let id = stale.get(&(*p as usize)).cloned().expect("stale request");
+                *counters.entry("stale_answers").or_insert(0) += 1;
+                let from = NodeAddress { socket_addr: peers[*p as usize].udp4_socket().unwrap().into(), node_id: ids[*p as usize] };
+                let other = (*p as usize + 1) % cfg.n_peers;
+                node.inject(HandlerOut::Response(from, Box::new(v::Response { id, body: v::ResponseBody::Nodes { total: 1, nodes: vec![peers[other].clone()] } }))).await;
+            }
         }
         // tokio's select! polls its branches in random order and the query pool registers no
         // waker: one wake-up may or may not poll the pool after the event was handled. Two
@@ -243,6 +283,11 @@ async fn run_async(cfg: &LCfg, hist: &[LEv]) -> Outcome<LEv> {
                 enabled.push(LEv::Late(*p as u8));
             }
         }
+        for p in stale.keys() {
+            if !hist.iter().any(|e| matches!(e, LEv::Stale(q) if *q as usize == *p)) {
+                enabled.push(LEv::Stale(*p as u8));
+            }
+        }
         if issued.iter().any(|(p, (_, t, _))| !answered.contains(p) && now < *t + PEER_TIMEOUT) {
             enabled.push(LEv::IdlePeer);
         }
@@ -285,7 +330,7 @@ async fn run_async(cfg: &LCfg, hist: &[LEv]) -> Outcome<LEv> {
     }
     let _ = (started, resolved_at);
     let inflight_view: Vec<(usize, bool)> = issued.iter().filter(|(p, _)| !answered.contains(p)).map(|(p, (_, t, _))| (*p, now < *t + PEER_TIMEOUT)).collect();
-    let delivered: Vec<String> = hist.iter().filter(|e| matches!(e, LEv::Resp(..))).map(|e| format!("{:?}", e)).collect::<BTreeSet<_>>().into_iter().collect();
+    let delivered: Vec<String> = hist.iter().filter(|e| matches!(e, LEv::Resp(..) | LEv::Stale(..))).map(|e| format!("{:?}", e)).collect::<BTreeSet<_>>().into_iter().collect();
     let fp = mc::fp_of(&(issued.keys().collect::<Vec<_>>(), &answered, &succeeded, successes.min(par + 1), inflight_view, delivered, hist.iter().filter(|e| matches!(e, LEv::IdleQuery)).count(), result.as_ref().map(|r| r.len())));
     if let Some(x) = violation.as_mut() {
         x.replay = json!({"engine":"ssim","check":"lookup","cfg":format!("{:?}",cfg),"history":format!("{:?}",hist)});
@@ -298,8 +343,8 @@ async fn run_async(cfg: &LCfg, hist: &[LEv]) -> Outcome<LEv> {
 
 pub fn debug() {
     let cfgs = vec![
-        LCfg { n_peers: 4, seeded: vec![0], parallelism: 1, predicate_k: None },
-        LCfg { n_peers: 4, seeded: vec![0, 1, 2], parallelism: 2, predicate_k: None },
+        LCfg { n_peers: 4, seeded: vec![0], parallelism: 1, predicate_k: None, prelude: 0 },
+        LCfg { n_peers: 4, seeded: vec![0, 1, 2], parallelism: 2, predicate_k: None, prelude: 0 },
     ];
     for cfg in &cfgs {
         for _ in 0..3 {
@@ -322,15 +367,20 @@ pub struct LookupResult {
 
 pub fn search(thorough: bool, budget: f64) -> LookupResult {
     let mut cfgs = vec![
-        LCfg { n_peers: 4, seeded: vec![0], parallelism: 1, predicate_k: None },
-        LCfg { n_peers: 4, seeded: vec![0, 1, 2], parallelism: 2, predicate_k: None },
-        LCfg { n_peers: 4, seeded: vec![0, 1, 2, 3], parallelism: 3, predicate_k: Some(2) },
-        LCfg { n_peers: 4, seeded: vec![3, 1], parallelism: 1, predicate_k: Some(1) },
+        LCfg { n_peers: 4, seeded: vec![0], parallelism: 1, predicate_k: None, prelude: 0 },
+        LCfg { n_peers: 4, seeded: vec![0, 1, 2], parallelism: 2, predicate_k: None, prelude: 0 },
+        LCfg { n_peers: 4, seeded: vec![0, 1, 2, 3], parallelism: 3, predicate_k: Some(2), prelude: 0 },
+        LCfg { n_peers: 4, seeded: vec![3, 1], parallelism: 1, predicate_k: Some(1), prelude: 0 },
     ];
+    // a second lookup started while requests of an ended one are still outstanding at the handler
+    cfgs.push(LCfg { n_peers: 3, seeded: vec![0, 1], parallelism: 2, predicate_k: None, prelude: 1 });
+    cfgs.push(LCfg { n_peers: 3, seeded: vec![0, 1], parallelism: 2, predicate_k: Some(1), prelude: 2 });
     if thorough {
-        cfgs.push(LCfg { n_peers: 5, seeded: vec![0, 1, 2, 3, 4], parallelism: 2, predicate_k: Some(2) });
-        cfgs.push(LCfg { n_peers: 5, seeded: vec![4], parallelism: 3, predicate_k: None });
-        cfgs.push(LCfg { n_peers: 5, seeded: vec![0, 2, 4], parallelism: 2, predicate_k: Some(3) });
+        cfgs.push(LCfg { n_peers: 4, seeded: vec![0, 1, 2], parallelism: 3, predicate_k: None, prelude: 2 });
+        cfgs.push(LCfg { n_peers: 4, seeded: vec![0, 1, 2], parallelism: 2, predicate_k: Some(2), prelude: 1 });
+        cfgs.push(LCfg { n_peers: 5, seeded: vec![0, 1, 2, 3, 4], parallelism: 2, predicate_k: Some(2), prelude: 0 });
+        cfgs.push(LCfg { n_peers: 5, seeded: vec![4], parallelism: 3, predicate_k: None, prelude: 0 });
+        cfgs.push(LCfg { n_peers: 5, seeded: vec![0, 2, 4], parallelism: 2, predicate_k: Some(3), prelude: 0 });
     }
     let depth = if thorough { 7 } else { 5 };
     let start = clock::wall();
